@@ -221,6 +221,14 @@ let handle (line : string) : string =
          | Err -> "cerr" | Panic -> "panic" in
        Printf.sprintf "(sem %s) (eval %s) (lasteq %s)" (out_str s) ev obs
      with Unknown_jet i -> Printf.sprintf "(unknown-jet %d)" i)
+  | "mwt", [ ast; args; wtys ] ->
+    let e = expr_of ast in
+    let a = lookup_fn (bindings_of args) in
+    let wl = match wtys with
+      | List l -> List.map (function List [ n; t ] -> (intern (atom n), ty_of t) | _ -> raise (Parse_error "bad witness type")) l
+      | _ -> raise (Parse_error "bad witness types") in
+    let w = lookup_fn wl in
+    if wt_program jet_sig w a e then "true" else "false"
   | "knownjets", [] ->
     let a = Lazy.force jets in
     let l = ref [] in
